@@ -29,7 +29,7 @@ CONSTANTS NA, NB,            \* inline capacities of the slots
           Copyable, NothrowMove,                    \* element flavour
           AllocIds,          \* allocator ids handed to constructors ({0}: default only)
           Pairs,             \* impl profiles: also explore every PAIR of throw points (second fault inside roll-back code)
-          Kinds              \* range kinds to use (0 input 1 fwd 2 bidir 3 random 4 ptr 5 move_iterator 6 container iterators 7 fwd construct-only sources)
+          Kinds              \* range kinds to use (0 input 1 fwd 2 bidir 3 random 4 ptr 5 move_iterator 6 container iterators 7 fwd / 8 input over construct-only sources)
 
 VARIABLES st, hist, everBig, allocCount
 
@@ -124,20 +124,21 @@ PredictUnary(o) ==
     [] op = "insert_rng" ->
          \* input category at end(): element-wise append; otherwise the count is known
          Mutate(op, c, a, Fresh(a[3]), InsertAt(vs, a[1], Fresh(a[3])), sz + a[3],
-                IF a[2] = 0 /\ a[1] = sz THEN PushGrow(x.cap, sz, a[3]) ELSE Grow(x, sz + a[3]), a[1],
-                IF a[2] = 0 THEN a[3] ELSE -1)
+                IF SinglePass(a[2]) /\ a[1] = sz THEN PushGrow(x.cap, sz, a[3]) ELSE Grow(x, sz + a[3]), a[1],
+                IF SinglePass(a[2]) THEN a[3] ELSE -1)
     [] op = "insert_il" ->
          Mutate(op, c, a, Fresh(a[2]), InsertAt(vs, a[1], Fresh(a[2])), sz + a[2], Grow(x, sz + a[2]), a[1], -1)
     [] op = "append_rng" ->
          Mutate(op, c, a, Fresh(a[2]), vs \o Fresh(a[2]), sz + a[2],
-                IF a[1] = 0 THEN PushGrow(x.cap, sz, a[2]) ELSE Grow(x, sz + a[2]), -1, IF a[1] = 0 THEN a[2] ELSE -1)
+                IF SinglePass(a[1]) THEN PushGrow(x.cap, sz, a[2]) ELSE Grow(x, sz + a[2]), -1, IF SinglePass(a[1]) THEN a[2] ELSE -1)
     [] op = "append_il" ->
          Mutate(op, c, a, Fresh(a[1]), vs \o Fresh(a[1]), sz + a[1], Grow(x, sz + a[1]), -1, -1)
     [] op = "assign_n"   -> Mutate(op, c, a, f1, Rep(a[1], f1[1]), a[1], Grow(x, a[1]), -1, -1)
     [] op = "assign_rng" ->
          Mutate(op, c, a, Fresh(a[2]), Fresh(a[2]), a[2],
-                IF a[1] = 0 THEN PushGrow(x.cap, Min(sz, a[2]), a[2] - Min(sz, a[2])) ELSE Grow(x, a[2]), -1,
-                IF a[1] = 0 THEN a[2] ELSE -1)
+                IF a[1] = 0 THEN PushGrow(x.cap, Min(sz, a[2]), a[2] - Min(sz, a[2]))
+                ELSE IF a[1] = 8 THEN PushGrow(x.cap, 0, a[2]) ELSE Grow(x, a[2]), -1,
+                IF SinglePass(a[1]) THEN a[2] ELSE -1)
     [] op \in {"assign_il", "opeq_il"} -> Mutate(op, c, a, Fresh(a[1]), Fresh(a[1]), a[1], Grow(x, a[1]), -1, -1)
     [] op = "erase"     -> Mutate(op, c, a, <<>>, EraseRange(vs, a[1], a[1] + 1), 0, x.cap, a[1], -1)
     [] op = "erase_rng" -> Mutate(op, c, a, <<>>, EraseRange(vs, a[1], a[2]), 0, x.cap, a[1], -1)
@@ -164,10 +165,10 @@ Build(op, c, s, a, v, vals, cap, al) ==
   LET n == NOf(cfg, c) IN
   IF Len(vals) > MaxSize THEN Line(op, c, s, a, v, "length_error", -1, -1, <<>>, st)
   ELSE IF cap = n THEN
-         Line(op, c, s, a, v, "ok", -1, IF op = "ctor_gen" THEN a[2] ELSE IF op = "ctor_rng" /\ a[2] = 0 THEN a[3] ELSE -1,
+         Line(op, c, s, a, v, "ok", -1, IF op = "ctor_gen" THEN a[2] ELSE IF op = "ctor_rng" /\ SinglePass(a[2]) THEN a[3] ELSE -1,
               <<>>, [st EXCEPT ![c] = Mk(c, El(vals), n, 0, al)])
        ELSE LET id == FreshId(st.blocks) IN
-         Line(op, c, s, a, v, "ok", -1, IF op = "ctor_gen" THEN a[2] ELSE IF op = "ctor_rng" /\ a[2] = 0 THEN a[3] ELSE -1,
+         Line(op, c, s, a, v, "ok", -1, IF op = "ctor_gen" THEN a[2] ELSE IF op = "ctor_rng" /\ SinglePass(a[2]) THEN a[3] ELSE -1,
               << <<4, 10 + id, cap, al, 0, 0>> >>,
               [st EXCEPT ![c] = Mk(c, El(vals), cap, id, al), !.blocks = Append(@, <<id, cap, al>>)])
 
@@ -185,7 +186,7 @@ PredictCtor(o) ==
     [] op = "ctor_nv"  -> Build(op, c, "-", a, Fresh(1), Rep(a[2], 101), ExactCap(c, a[2]), al)
     [] op = "ctor_gen" -> Build(op, c, "-", a, Fresh(a[2]), Fresh(a[2]), ExactCap(c, a[2]), al)
     [] op = "ctor_rng" -> Build(op, c, "-", a, Fresh(a[3]), Fresh(a[3]),
-                                IF a[2] = 0 THEN PushGrow(NOf(cfg, c), 0, a[3]) ELSE ExactCap(c, a[3]), al)
+                                IF SinglePass(a[2]) THEN PushGrow(NOf(cfg, c), 0, a[3]) ELSE ExactCap(c, a[3]), al)
     [] op = "ctor_il"  -> Build(op, c, "-", a, Fresh(a[2]), Fresh(a[2]), ExactCap(c, a[2]), al)
 
 (***************************************************************************)
